@@ -939,6 +939,18 @@ func (x *Exec) applyContractSig(st *State, call *ast.CallExpr, sig *types.Signat
 			x.vc.note("ensures of " + c.Local + " mentioning the callee's locals not available to callers: " + trunc(en.Src, 60))
 		}
 	}
+	// call-history ghosts: pure bookkeeping by the caller of how often this callee returned with a given outcome
+	for _, cd := range c.Counts {
+		g, ok := x.prog.specs.Ghosts[cd.Ghost]
+		if !ok {
+			panic(unsupported("counts: unknown ghost " + cd.Ghost))
+		}
+		cur := x.ghostVal(st, g)
+		cond := post.boolean(cd.Cond)
+		nv := cur
+		nv.T = ite(cond, x.vc.arith("+", cur.T, x.vc.intLit(1), true), cur.T)
+		st.heap["G:"+cd.Ghost] = x.nameAlways(cd.Ghost, nv)
+	}
 	kind := c.Kind
 	if c.Opts["trusted"] {
 		kind = "trusted"
